@@ -101,6 +101,13 @@ no white space, value `< 2^64` (`std::errc::result_out_of_range` otherwise) -/
 def parseFullUInt (base : Nat) (s : Bytes) : Option Nat :=
   if s.isEmpty then none else parseDigits base s 0
 
+/-- what may follow the hex digits of a chunk-size line (before its CRLF): nothing, or optional BWS and a `;`-led chunk
+extension; BWS directly before the CRLF is malformed (RFC 9112 §7.1.1) -/
+def chunkExtOk (afterHex : Bytes) : Bool :=
+  match afterHex.drop (afterHex.takeWhile isOWS).length with
+  | c :: _ => c == 59
+  | [] => (afterHex.takeWhile isOWS).isEmpty
+
 /-! ### splitting -/
 
 /-- split at every occurrence of the byte `sep` (separator removed); never returns `[]` -/
